@@ -445,7 +445,89 @@ def has_cycle_error(o, what):
     return o[0] == "errors" and any(g[0].startswith(what) for g in o[1])
 
 
-def module_cases(ctx, files, main, label, desc, graph_cases, order_cases):
+CONST_ARG_KEY = "cycle-missed:constant-reference-in-type-argument"
+CONST_ARG_LABELS = ("args:enum", "args:static")
+
+
+def report_guarded(ctx, key, desc, replay):
+    """A defect of the unchanged tree that is proposed in harness/known_proposed/deps_irser.json: it is
+    re-derived on every run, reported under its key once that key is listed in KNOWN_FINDINGS.json,
+    and only noted until then (a check must be silent on the unchanged tree)."""
+    if any(k.get("key") == key for k in ctx.known):
+        ctx.violation(key, desc, replay, found_input=True)
+    else:
+        ctx.count("candidate:" + key)
+        if not ctx.extra.get("noted:" + key):
+            ctx.extra["noted:" + key] = True
+            ctx.note("candidate finding (not listed, not failing the check): " + desc)
+
+
+def oracle_sccs(P):
+    """Nontrivial SCCs of a graph over hashable node labels, as sorted lists of labels."""
+    ids, rows = number_graph(P)
+    inv = {v: k for k, v in ids.items()}
+    return sorted(sorted(inv[x] for x in c) for c in independent_sccs(rows))
+
+
+def oracle_order(names, local, params):
+    """The greedy specification (Order.greedy_spec) on the graph by construction: repeatedly the first
+    field in source order all of whose local dependencies are placed (or are parameters)."""
+    placed, order, remaining = set(params), [], list(range(len(names)))
+    while remaining:
+        for k, i in enumerate(remaining):
+            if local[i] <= placed:
+                order.append(i)
+                placed.add(names[i])
+                del remaining[k]
+                break
+        else:
+            return None
+    return order
+
+
+def construction_oracle(ctx, dm, G, files, main, label):
+    """Compare the compiler's dependency map with the graph by construction; returns the graph the
+    expected verdict is taken from (None when the comparison itself is a violation)."""
+    P = dm.planted_graph()
+    labs = {}
+    for (u, v, lab) in dm.edge_labels():
+        labs.setdefault((u, v), set()).add(lab)
+    weak = {e for e, ls in labs.items() if ls <= set(CONST_ARG_LABELS)}
+    P2 = {u: {v for v in vs if (u, v) not in weak} for u, vs in P.items()}
+    replay = dict(kind="modules", files=files, main=main)
+    absent = [u for u in P if u not in G]
+    if absent:
+        ctx.violation("dependency-node-missing", "%s written in %s is not a node of _find_dependencies' graph" % (absent[0], label),
+                      replay, found_input=True)
+        return None
+    if all(G[u] == P[u] for u in P):
+        return P
+    if all(G[u] == P2[u] for u in P):
+        # enum values / Type.field constants inside arguments of parameterised types are not seen as dependencies
+        u, v = sorted(weak & {(a, b) for a in P for b in P[a]})[0]
+        if oracle_sccs(P) != oracle_sccs(P2):
+            report_guarded(ctx, CONST_ARG_KEY,
+                           "a dependency cycle through a constant reference inside a type argument (%s -> %s in %s) is not reported: "
+                           "cycles by construction %s, without those edges %s" % (u[1:], v[1:], label, [[x[1:] for x in c] for c in oracle_sccs(P)],
+                                                                                   [[x[1:] for x in c] for c in oracle_sccs(P2)]),
+                           dict(replay, outcome=outcome_text(full_compile(files, main))))
+        else:
+            ctx.count("const-ref-in-type-argument-not-an-edge")
+        return P2
+    for u in P:
+        if G[u] != P[u]:
+            missing, extra = sorted(P[u] - G[u]), sorted(G[u] - P[u])
+            kinds = sorted({l for v in missing for l in labs.get((u, v), ())})
+            ctx.violation("dependency-extraction-differs",
+                          "_find_dependencies on %s: %s mentions %s (edge kinds %s) which are not in its dependency set%s"
+                          % (label, u[1:], [v[1:] for v in missing], kinds, "; extra: %s" % [v[1:] for v in extra] if extra else ""),
+                          dict(replay, node=list(u), missing=[list(v) for v in missing], extra=[list(v) for v in extra], edge_kinds=kinds),
+                          found_input=True)
+            break
+    return P
+
+
+def module_cases(ctx, files, main, label, dm, graph_cases, order_cases):
     """One generated/corpus module set: verdict, components, order, termination."""
     from compiler.front_end import dependency_checker
     try:
@@ -464,14 +546,10 @@ def module_cases(ctx, files, main, label, desc, graph_cases, order_cases):
     M = dependency_checker._find_module_import_dependencies(ir)
     if derrs:
         ctx.count("keyword-in-wrong-context")   # $next etc.: the pass returns these errors before looking for cycles
-    # planted references must all be seen by the extraction
-    if desc is not None and not derrs:
-        missing = [e for e in desc if e[0] in G and e[1] not in G[e[0]]]
-        if missing:
-            ctx.violation("dependency-not-extracted",
-                          "_find_dependencies misses the reference %s -> %s written in %s" % (missing[0][0], missing[0][1], label),
-                          dict(kind="modules", files=files, main=main, missing=[list(map(list, e)) for e in missing[:5]]),
-                          found_input=True)
+    # the graph by construction decides the expected verdict for generated modules
+    oracle = None
+    if dm is not None and not derrs:
+        oracle = construction_oracle(ctx, dm, G, files, main, label)
     gc_obj = graph_case(ctx, G, label + ":objects", dict(kind="modules", files=files, main=main, graph="objects"))
     gc_mod = graph_case(ctx, M, label + ":imports", dict(kind="modules", files=files, main=main, graph="imports"))
     for c in (gc_obj, gc_mod):
@@ -481,24 +559,33 @@ def module_cases(ctx, files, main, label, desc, graph_cases, order_cases):
             ctx.violation("dependency-graph-not-closed",
                           "a dependency of %s is not itself a node of the graph (_find_cycles indexes graph[node])" % label,
                           dict(kind="modules", files=files, main=main, implementation=c[2]["py"]), found_input=True)
-    obj_cyclic = bool(gc_obj and gc_obj[2].get("ind"))
+    if oracle is not None:
+        exp_comps = oracle_sccs(oracle)                       # lists of node labels, by construction
+    else:
+        ids_g, _rows_g = number_graph(G)
+        inv_g = {v: k for k, v in ids_g.items()}
+        exp_comps = sorted(sorted(inv_g[x] for x in c) for c in ((gc_obj[2].get("ind") if gc_obj else None) or []))
+    obj_cyclic = bool(exp_comps)
     mod_cyclic = bool(gc_mod and gc_mod[2].get("ind"))
+    if dm is not None and oracle is not None:
+        cyc_nodes = {x for c in exp_comps for x in c}
+        for (u, v, lab) in dm.edge_labels():
+            on_cycle = u in cyc_nodes and v in cyc_nodes and any(u in c and v in c for c in exp_comps)
+            ctx.count("edge:%s:%s" % (lab, "on-cycle" if on_cycle else "cyclic-module" if exp_comps else "acyclic-module"))
     # verdict of the pass itself
     perrs = dependency_checker.find_dependency_cycles(ir)
     said_obj = [g for g in perrs if g[0].message.startswith("Dependency cycle")]
     said_mod = [g for g in perrs if g[0].message.startswith("Import dependency cycle")]
     if not derrs:
-        if bool(said_obj) != obj_cyclic or (gc_obj and gc_obj[2].get("ind") is not None and len(said_obj) != len(gc_obj[2]["ind"])):
-            ctx.violation("cycle-missed" if obj_cyclic else "false-cycle",
-                          "find_dependency_cycles reports %d object cycles on %s; independent SCC computation finds %s"
-                          % (len(said_obj), label, gc_obj[2].get("ind") if gc_obj else "?"),
+        if bool(said_obj) != obj_cyclic or len(said_obj) != len(exp_comps):
+            ctx.violation("cycle-missed" if len(said_obj) < len(exp_comps) else "false-cycle",
+                          "find_dependency_cycles reports %d object cycles on %s; strongly connected components %s: %s"
+                          % (len(said_obj), label, "by construction" if oracle is not None else "of the extracted graph",
+                             [[x[1:] for x in c] for c in exp_comps]),
                           dict(kind="modules", files=files, main=main), found_input=True)
         else:
             # each reported group names exactly the members of one component
-            names_of = {}
-            ids, _rows = number_graph(G)
-            inv = {v: k for k, v in ids.items()}
-            comps_named = sorted(sorted(inv[x][-1] for x in c) for c in (gc_obj[2]["ind"] or [])) if gc_obj else []
+            comps_named = sorted(sorted(x[-1] for x in c) for c in exp_comps)
             said_named = sorted(sorted([g[0].message.split("\n", 1)[1]] + [m.message for m in g[1:]]) for g in said_obj)
             if comps_named != said_named:
                 ctx.violation("cycle-wrong-component", "reported cycle members %s differ from the strongly connected components %s on %s"
@@ -541,7 +628,7 @@ def module_cases(ctx, files, main, label, desc, graph_cases, order_cases):
         else:
             ctx.count("accepted")
     ctx.case(("mod", label, sorted(files.items())), nontrivial=True,
-             sample=dict(label=label, shape=(None if desc is None else "generated"), nodes=len(G), edges=sum(len(v) for v in G.values()),
+             sample=dict(label=label, shape=(None if dm is None else dm.shape), nodes=len(G), edges=sum(len(v) for v in G.values()),
                          cyclic=cyclic, compiler=outcome_text(o)[:120]))
     if cyclic or derrs:
         return
@@ -574,6 +661,30 @@ def module_cases(ctx, files, main, label, desc, graph_cases, order_cases):
         ctx.count("structure:" + ("reordered" if moved else "source-order"))
         order_cases.append((inp, exp, dict(label=label, names=[list(x) for x in rec["names"]], files=files, main=main,
                                            n=n, moved=moved)))
+    # the order each generated structure must have, from the graph by construction
+    if dm is not None and oracle is not None:
+        by_struct = {}
+        for rec in cap.records:
+            if rec["names"]:
+                by_struct[tuple(rec["names"][0][:-1])] = rec
+        for (skey, names, local, params) in dm.planted_structs():
+            rec = by_struct.get(skey)
+            want = oracle_order(names, local, params)
+            if rec is None or not isinstance(rec["result"], list) or want is None:
+                ctx.violation("order-missing", "no dependency order was produced for %s in %s (expected %s)" % (skey, label, want),
+                              dict(kind="modules", files=files, main=main, structure=list(skey)), found_input=True)
+                continue
+            pos = {nm[-1]: i for i, nm in enumerate(rec["names"])}
+            src = [pos.get(nm) for nm in names]
+            got_names = [rec["names"][i][-1] for i in rec["result"] if rec["names"][i][-1] in set(names)]
+            want_names = [names[i] for i in want]
+            ctx.count("order-oracle:" + ("moved" if want != list(range(len(names))) else "source-order"))
+            if None in src or src != sorted(src) or got_names != want_names:
+                ctx.violation("order-differs-from-construction",
+                              "fields_in_dependency_order of %s in %s is %s; the dependencies written in the text require %s"
+                              % (skey, label, got_names, want_names),
+                              dict(kind="modules", files=files, main=main, structure=list(skey), got=got_names, expected=want_names),
+                              found_input=True)
 
 
 # ------------------------------------------------------------------------------
@@ -627,6 +738,23 @@ def run_item(ctx, item, label, graph_cases, order_cases):
         add_ordering_case(ctx, names, deps, params, "corpus", order_cases)
     else:
         ctx.note("item %s of unknown kind %r ignored" % (label, item.get("kind")))
+
+
+CONST_ARG_PROBE = ('[$default byte_order: "LittleEndian"]\n'
+                   "struct Pk(n: UInt:8):\n  0 [+1]  UInt  v\n"
+                   "struct Sa:\n  let g = a0.v\n  0 [+1]  Pk((Ea.VA == Ea.VA ? 1 : 0))  a0\n"
+                   "enum Ea:\n  VA = Sa.g\n")
+
+
+def const_arg_probe(ctx):
+    """a0 -> Ea.VA (inside a type argument) -> Sa.g -> a0: a cycle by construction."""
+    o = full_compile({"q.emb": CONST_ARG_PROBE}, "q.emb")
+    ctx.extra["const_arg_probe"] = outcome_text(o)[:200]
+    if not has_cycle_error(o, "Dependency cycle"):
+        report_guarded(ctx, CONST_ARG_KEY,
+                       "a dependency cycle through a constant reference inside a type argument (a0 -> Ea.VA -> Sa.g -> a0) is not "
+                       "reported; the compiler's result is: " + outcome_text(o)[:200],
+                       dict(kind="modules", files={"q.emb": CONST_ARG_PROBE}, main="q.emb", outcome=outcome_text(o)))
 
 
 def replay_corpus(ctx, graph_cases, order_cases):
@@ -685,9 +813,13 @@ def run(ctx):
     ctx.rule = ("(a) random directed graphs (DAGs, rings, chains, DAG+several rings, self loops, dense/sparse random, 1..60 nodes, "
                 "shuffled labels and dict order) given to _find_cycles directly; (b) random field lists with dependency sets "
                 "(source-order-valid, acyclic in a shuffled order, cyclic, with a foreign name) given to the ordering function; "
-                "(c) generated multi-file modules (harness/gen_deps.py: references in locations, sizes, conditions, values, enum "
-                "values, parameters, imports; shapes acyclic/sorted/self/cycle/multi/dense/import) and every /repo/testdata/*.emb "
-                "through the real front end.  A case is non-trivial when it has at least one edge / two fields; distinct by content")
+                "(c) generated multi-file modules (harness/gen_deps.py): every edge kind — existence condition, location start and size, "
+                "array length, arguments of parameterised types (field, expression, member b.v), virtual fields and aliases, $next, enum "
+                "values, static Type.field references across types and imported modules, parameters; [requires] attributes as non-edges — "
+                "in acyclic, source-ordered, self-loop, long-cycle, multi-SCC, dense and import-cycle shapes; the expected cycle verdict, "
+                "components and field order come from the dependency graph BY CONSTRUCTION (the text that was written), and "
+                "_find_dependencies' map is compared with it edge by edge; plus every /repo/testdata/*.emb through the real front end.  "
+                "A case is non-trivial when it has at least one edge / two fields; distinct by content")
     ctx.trusted = ["Coq 8.16.1 kernel, vm_compute", "harness/props/c15.py (numbering of nodes, capture of the ordering pass's arguments, independent SCC by transitive closure)",
                    "harness/gen_deps.py", "CPython 3.12 running /repo's front end"]
     ctx.assumptions = ["'the fields a field mentions' = every field reference inside the field except in attributes: location, existence condition, value, and also the arguments / array length of its type (testdata/parameters.emb AxisPair is reordered because `Axis(axis_type_a)` mentions a later field)",
@@ -738,7 +870,7 @@ def run(ctx):
         dm = gen_deps.DepsModules(ctx.rng)
         files = dm.file_map()
         ctx.count("shape:" + dm.shape)
-        module_cases(ctx, files, "m0.emb", "gen:%d:%s" % (i, dm.shape), dm.planted(), graph_cases, order_cases)
+        module_cases(ctx, files, "m0.emb", "gen:%d:%s" % (i, dm.shape), dm, graph_cases, order_cases)
     phase("generated-modules")
     for p in ([] if replaying else sorted(glob.glob(os.path.join(fw.REPO, "testdata", "*.emb")))):
         rel = os.path.relpath(p, fw.REPO)
@@ -746,6 +878,7 @@ def run(ctx):
     phase("testdata-modules")
     if not replaying:
         deep_chain_probe(ctx)
+        const_arg_probe(ctx)
     phase("deep-chain-probe")
     # model side
     # both batches are evaluated by Coq concurrently (each is itself sharded over processes)
